@@ -745,10 +745,8 @@ make_fn!(
 );
 
 make_fn!(
-    range_expression<SliceIter<Token>, Expression>,
+    range_tail<SliceIter<Token>, (Option<Box<Expression>>, Expression)>,
     do_each!(
-        pos => pos,
-        start => either!(simple_expression, grouped_expression),
         _ => punct!(":"),
         maybe_step => optional!(
             do_each!(
@@ -758,14 +756,41 @@ make_fn!(
             )
         ),
         end => must!(wrap_err!(either!(simple_expression, grouped_expression), "Expected simple or grouped expression")),
-        (Expression::Range(RangeDef{
-            pos,
-            start: Box::new(start),
-            step: maybe_step,
-            end: Box::new(end),
-        }))
+        (maybe_step, end)
     )
 );
+
+fn range_expression(input: SliceIter<Token>) -> ParseResult<Expression> {
+    let pos: Position = (&input).into();
+    let (rest, start) = match either!(input.clone(), simple_expression, grouped_expression) {
+        Result::Complete(rest, start) => (rest, start),
+        Result::Fail(e) => return Result::Fail(e),
+        Result::Abort(e) => return Result::Abort(e),
+        Result::Incomplete(i) => return Result::Incomplete(i),
+    };
+    match range_tail(rest.clone()) {
+        Result::Complete(rest, (step, end)) => Result::Complete(
+            rest,
+            Expression::Range(RangeDef {
+                pos,
+                start: Box::new(start),
+                step,
+                end: Box::new(end),
+            }),
+        ),
+        Result::Fail(e) => match start {
+            // Not a range. A grouped expression, list or tuple can only be
+            // parsed the same way by the alternatives that follow, so hand it
+            // back instead of parsing the nested input a second time.
+            Expression::Grouped(_, _)
+            | Expression::Simple(Value::List(_))
+            | Expression::Simple(Value::Tuple(_)) => Result::Complete(rest, start),
+            _ => Result::Fail(e),
+        },
+        Result::Abort(e) => Result::Abort(e),
+        Result::Incomplete(i) => Result::Incomplete(i),
+    }
+}
 
 make_fn!(
     import_expression<SliceIter<Token>, Expression>,
